@@ -102,7 +102,7 @@ pub fn call(name: &str, args: &[V]) -> R {
             },
             V::Map(m) => {
                 if !valid_key(&args[1]) {
-                    return R::Unspecified("lookup with a value that is not a valid key kind");
+                    return R::Err; // the key kinds insert and indexing reject are rejected here as well
                 }
                 for (k, v) in m.borrow().iter() {
                     match eq(k, &args[1]) {
@@ -118,7 +118,7 @@ pub fn call(name: &str, args: &[V]) -> R {
         "contains" => match a0 {
             V::Map(m) => {
                 if !valid_key(&args[1]) {
-                    return R::Unspecified("lookup with a value that is not a valid key kind");
+                    return R::Err; // the key kinds insert and indexing reject are rejected here as well
                 }
                 for (k, _) in m.borrow().iter() {
                     match eq(k, &args[1]) {
@@ -197,7 +197,8 @@ pub fn call(name: &str, args: &[V]) -> R {
                 if *i >= 0 && *i <= 0x10FFFF && !(0xD800..=0xDFFF).contains(i) {
                     R::Ok(V::Char(char::from_u32(*i as u32).unwrap()))
                 } else {
-                    R::Unspecified("char of an integer that is not a Unicode scalar value")
+                    // one rule for every integer: outside the Unicode scalar values there is no character
+                    R::Ok(V::Null)
                 }
             }
             V::Float(_) | V::Str(_) | V::Bool(_) => R::Unspecified("char: documented kind, result not pinned (must not be an error)"),
@@ -209,7 +210,8 @@ pub fn call(name: &str, args: &[V]) -> R {
                 if *i >= 0 && *i <= 255 {
                     R::Ok(V::Byte(*i as u8))
                 } else {
-                    R::Unspecified("byte of an integer outside 0..=255")
+                    // one rule for every integer: outside 0..=255 there is no byte
+                    R::Ok(V::Null)
                 }
             }
             V::Char(c) => {
